@@ -104,6 +104,50 @@ def run (v : UpdVariant) (e : Env) (s : State) (op : Op) : Outcome :=
   | .proxies => send v e o0 (req .get ["proxies"] .empty)
   | .reset => send v e o0 (req .post ["reset"] .empty)
 
+/-! ### Proxy handles
+
+A `*client.Proxy` obtained from the server is a snapshot; `Enable`, `Disable` and `Save` send
+the snapshot's fields (with the flag set) whatever the server's state has become meanwhile,
+and a successful answer overwrites the snapshot. -/
+
+def CProxy.ofRec (p : ProxyRec) : CProxy := ⟨p.name, p.listen, p.upstream, p.enabled, true⟩
+
+inductive HOp where
+  | fetch (name : String)              -- h = client.Proxy(name)
+  | enable | disable | save | delete   -- h.Enable() …
+  | setAddr (listen upstream : String) -- h.Listen, h.Upstream = … (no request)
+
+/-- The handle after a `Save` that sent `h'`. -/
+def afterSave (h' : CProxy) (o : Outcome) : CProxy :=
+  if o.failed then h' else
+  match o.last with
+  | some ⟨_, .proxy p, _, _⟩ => CProxy.ofRec p
+  | _ => { h' with created := true }
+
+def runHandle (v : UpdVariant) (e : Env) (s : State) (h : Option CProxy) (op : HOp) :
+    Outcome × Option CProxy :=
+  let o0 : Outcome := ⟨s, [], false, none⟩
+  match op, h with
+  | .fetch n, _ =>
+    let o := run v e s (.getProxy n)
+    (match o.failed, s.find n with
+     | false, some p => (o, some (CProxy.ofRec p))
+     | _, _ => (o, h))
+  | _, none => ({ o0 with failed := true }, none)      -- no handle: nothing to call
+  | .enable, some x =>
+    let x' := { x with enabled := true }
+    let o := run v e s (.save x')
+    (o, some (afterSave x' o))
+  | .disable, some x =>
+    let x' := { x with enabled := false }
+    let o := run v e s (.save x')
+    (o, some (afterSave x' o))
+  | .save, some x =>
+    let o := run v e s (.save x)
+    (o, some (afterSave x o))
+  | .delete, some x => (run v e s (.delete x.name), some x)
+  | .setAddr l u, some x => (o0, some { x with listen := l, upstream := u })
+
 end Toxi.Client
 
 /-! ## toxiproxy-cli (`cmd/cli/cli.go`): which client operations each command performs -/
